@@ -89,6 +89,11 @@ Theorem C11_executed_model_is_specified_model :
   (forall m, mesh_to_bin_fast m = mesh_to_bin m) /\ (forall bs, bin_to_mesh_fast bs = bin_to_mesh bs).
 Proof. exact (conj mesh_to_bin_fast_eq bin_to_mesh_fast_eq). Qed.
 
+(* the model's third decoder outcome (a bincode value without the shape of its own schema) is
+   reached by no input: on EVERY byte string bin_to_mesh panics in decompress or returns a mesh *)
+Theorem C11_decoder_never_stuck : forall bs, bin_to_mesh bs <> Stuck.
+Proof. exact bin_to_mesh_never_stuck. Qed.
+
 Print Assumptions C11_source_topology_tables_inverse.
 Print Assumptions C11_source_layout.
 Print Assumptions C11_source_attribute_formats.
@@ -97,3 +102,4 @@ Print Assumptions C11_mesh_lossless.
 Print Assumptions C11_strong_handle_dropped.
 Print Assumptions C11_supported_is_inhabited.
 Print Assumptions C11_executed_model_is_specified_model.
+Print Assumptions C11_decoder_never_stuck.
